@@ -15,6 +15,11 @@ CLAIMED = {
    note="Trusted: rendering of a graph to library sources/files (a faulting body is (car N)), the error-kind projection, hook H2 (read-only). Where the statement does not order competing errors (cycle and failing library both reachable) any of them is accepted. Bound: 3 libraries exhaustive (<=1 faulty node quick), histories <=2 (quick) / 3 (thorough); random graphs to 6 libraries, 6 attempts.",
    technique="TLA+ state machine + TLC safety and liveness checking, replay of all explored histories, TLC trace validation",
    ref="DESIGN.md section 5, C14"),
+ "C05": dict(
+   text="Machine.tla gives every derived form a direct R7RS rule (not the bundled macro text). TLC runs every program of Programs!DerivedFamily (each form x truth assignment x context incl. binders of the names the bundled rules introduce, and every ordered pair nested in every sub-form position) on the machine, checks at-most-once evaluation, absence of errors, bounded continuation, and an independent statement of R7RS 4.2 for each un-nested form (SingleLaw), and prints per-form value and tick sequence; every program is replayed on the real interpreter. Seeded random nestings (depth 4, inside procedures) are recorded from the interpreter and validated by TLC against MachineTrace.tla.",
+   note="Trusted: renderer AST->text, value/error projection, the host procedure tick!. Operand/initialiser order is not compared (at most one effectful operand). Core keywords are treated as reserved words. One known finding (atom-key capture in case).",
+   technique="TLA+ abstract machine + TLC exhaustive family, replay into the implementation, TLC trace validation of random programs",
+   ref="DESIGN.md section 5, C05"),
 }
 PENDING_REASON = "no check is registered for this property yet: the specification module and binding for it are still being built (see DESIGN.md section 10); nothing is claimed"
 
